@@ -225,6 +225,8 @@ def check_case(case):
                     x["sig"] = "icode-twin"
             elif x.get("key") in by_key:
                 g = by_key[x["key"]]
+                if x["clause"] in ("sum-identity", "bridged==99.99") and "[AVR]" not in x["detail"]:
+                    continue          # within one conformation the arithmetic has nothing to do with labels
                 if g["label"].strip() in twin_labels:
                     x["sig"] = "icode-twin"
     penalised = any(g["ctg"] is not None for c in rec["confs"].values() for g in c["groups"])
